@@ -13,7 +13,7 @@ import (
 func c06Cfg() *DeclCfg {
 	types := []TypeSpec{{K: KString}, {K: KBool}, {K: KBool}, {K: KInt}, {K: KString, W: WSlice}, {K: KBool, W: WSlice}, {K: KFloat64}, {K: KString, W: WMap, MapKey: KString}, {K: KString, W: WPtr}, {K: KBool, W: WPtr}, {W: WFunc0}, {K: KString, W: WFunc1}, {K: KInt, W: WFunc1Err}}
 	return &DeclCfg{
-		MaxDepth: 3, MaxFan: 2, PCmds: 70, Types: types, OptsMin: 1, OptsMax: 3, SubGroupsMax: 1, PInline: 20, NestMax: 2,
+		MaxDepth: 3, MaxFan: 2, PCmds: 70, Types: types, OptsMin: 1, OptsMax: 3, SubGroupsMax: 1, PInline: 20, PNameless: 10, NestMax: 2,
 		PNamespace: 30, PShortOnly: 20, PLongOnly: 20, PRequired: 45, PDefault: 8, PProgAttr: 40, POptional: 15,
 		PPos: 45, PosMax: 4, PRest: 50, PPosReq: 60, PExec: 60, PByTag: 50, PSubOptional: 30, PAliases: 20,
 		ParserOpts: []flags.Options{0, flags.PassDoubleDash, flags.HelpFlag | flags.PassDoubleDash, flags.HelpFlag},
